@@ -314,3 +314,27 @@ Example last_weeks_spec_nonvacuous :
   valid (2021, 1, 3) /\ 1 <= ord (start_of_week (2021, 1, 3)) - 7 * 52
   /\ last_52_weeks (Day, (2021, 1, 3), 1) = Ok (Week, (2019, 12, 30), 52).
 Proof. c04_example. Qed.
+
+(** ** Tie to the regenerated dispatch of Period.get_subperiods
+
+    coq/gen/GuardsPeriod.v is re-emitted on every run from the Python text of
+    Period.get_subperiods (harness/gen_tables.py, fail-closed): the weight test
+    [gen_subperiods_guard] (true = raises ValueError) and, per requested unit, the base period,
+    the unit of the offsets and the count [gen_subperiods_choice] (None = raises ValueError).
+    [apply_named] / [apply_size] (coq/model/GuardsTypes.v) read the chosen names as the
+    functions of Period.v of the same name.  The [subperiods] the theorems above are about is
+    the one written in the source now. *)
+From Verif Require Import GuardsTypes GuardsPeriod GuardsPeriodSem GuardsPeriodProofs.
+
+Theorem source_subperiods_is_model_subperiods : forall p u,
+  subperiods p u
+  = if gen_subperiods_guard (p_unit p) u then Err EValue
+    else match gen_subperiods_choice u with
+         | None => Err EValue
+         | Some (base, off_unit, count) =>
+             bind (apply_named base p) (fun b =>
+             bind (apply_size count p) (fun n =>
+             mapM (fun i => offset b i (Some off_unit)) (zrange n)))
+         end.
+Proof. exact subperiods_is_source. Qed.
+Print Assumptions source_subperiods_is_model_subperiods.
